@@ -31,6 +31,7 @@ type vconn struct {
 	failWrites bool
 	nextTicket int // Read calls are served in arrival order
 	serving    int
+	peerGone   bool // the peer's end is gone: reads end, writes fail
 	local      net.Addr
 	remote     net.Addr
 }
@@ -54,10 +55,10 @@ func (c *vconn) Read(b []byte) (int, error) {
 		c.serving++
 		c.cond.Broadcast()
 	}()
-	for len(c.in) == 0 && !c.closed {
+	for len(c.in) == 0 && !c.closed && !c.peerGone {
 		c.cond.Wait()
 	}
-	if len(c.in) == 0 && c.closed {
+	if len(c.in) == 0 && (c.closed || c.peerGone) {
 		return 0, fmt.Errorf("connection closed")
 	}
 	n := copy(b, c.in)
@@ -70,7 +71,7 @@ func (c *vconn) Write(b []byte) (int, error) {
 	if c.closed {
 		return 0, fmt.Errorf("connection closed")
 	}
-	if c.failWrites {
+	if c.failWrites || c.peerGone {
 		return 0, fmt.Errorf("write failed")
 	}
 	c.out = append(c.out, b...)
@@ -515,7 +516,11 @@ func (s *session) observe() sessState {
 	}
 	f := s.fsm()
 	if f != nil {
-		switch f.State {
+		st := f.State
+		if closed && (st == "active" || st == "connect") {
+			st = "idle" // RFC 4271: OpenSent goes to Active when the connection fails; no session either way
+		}
+		switch st {
 		case "idle", "cease":
 			o.St = "Idle"
 		case "openSent":
@@ -769,6 +774,12 @@ func init() {
 				} else {
 					s.vrf.IPv4UnicastRIB().RemovePath(pfx, p)
 				}
+			case "ConnLost":
+				s.conn.mu.Lock()
+				s.conn.peerGone = true
+				s.conn.cond.Broadcast()
+				s.conn.mu.Unlock()
+				wait = 4 * time.Second
 			case "Wait":
 				time.Sleep(2200 * time.Millisecond) // the periodic timer checks of the FSM run once per second
 			case "HoldExpires":
